@@ -677,3 +677,4 @@ c01_task = _guard(c01_task, "replay")
 c06c_task = _guard(c06c_task, "compiled")
 c08_task = _guard(c08_task, "buffers")
 c13_compiled_task = _guard(c13_compiled_task, "compiled")
+c07_task = _guard(c07_task, "schedule")
